@@ -12,6 +12,21 @@ class Boom(Exception):
     pass
 
 
+class BoomType(TypeError):
+    pass
+
+
+class BoomKey(KeyError):
+    pass
+
+
+class BoomRuntime(RuntimeError):
+    pass
+
+
+BOOMS = [Boom, BoomType, TypeError, ValueError, BoomKey, BoomRuntime, AttributeError]
+
+
 class C20(C.ProgramDiff):
     id = 'C20'
     title = 'Python predicates are interchangeable with compiled ones'
@@ -19,9 +34,9 @@ class C20(C.ProgramDiff):
     rule = ('random programs with all control constructs and meta-calls; a generated non-empty subset of the FACT '
             'predicates is removed from the text and registered as Python generator functions that unify their '
             'arguments with each row (fresh variables for non-ground rows) and yield a generated True/False per '
-            'solution; registration with inferred arity (fixed signature), explicit arity, or variadic (*args, '
-            'arity=-1); optionally dynamic facts of the same name/arity are asserted beside them; optionally the '
-            'function raises a private exception at its n-th solution. Oracles: answers of every query on the mixed '
+            'solution; registration with inferred arity (fixed signature), explicit arity (fixed signature or *args function), or '
+            'variadic (*args, arity=-1); optionally dynamic facts of the same name/arity are asserted beside them; optionally the '
+            'function raises an exception (private class, TypeError, ValueError, KeyError / RuntimeError subclasses, AttributeError) at its n-th solution. Oracles: answers of every query on the mixed '
             'engine = answers on the all-compiled engine = reference R; the function saw its arguments in call order '
             'as engine terms reifying to the terms R passes; a raised exception reaches the consumer with the same '
             'class and arguments, the answers before it are a prefix of R\'s, and afterwards every engine variable is '
@@ -47,12 +62,12 @@ class C20(C.ProgramDiff):
         for k in factkeys:
             if src.n(3) != 0 or not replaced and k == factkeys[-1]:
                 rows = [list(h[2]) if h[0] == 'f' else [] for h, _ in groups[k]]
-                style = src.pick(['inferred', 'explicit', 'variadic'])
+                style = src.pick(['inferred', 'explicit', 'variadic', 'explicit-varargs'])
                 if style == 'variadic' and any(r['name'] == k[0] and r['style'] == 'variadic' for r in replaced):
                     style = 'explicit'      # one variadic registration per name (a second would replace the first)
                 yields = [bool(src.n(2)) for _ in range(1 + src.n(3))]
                 replaced.append({'name': k[0], 'arity': k[1], 'rows': rows, 'style': style, 'yields': yields,
-                                 'raise_at': (1 + src.n(4)) if src.rare(1, 6) else 0})
+                                 'raise_at': (1 + src.n(4)) if src.rare(1, 6) else 0, 'raise_class': src.n(len(BOOMS))})
         dyn = []
         if replaced and src.n(3) == 2:
             r = src.pick(replaced)
@@ -176,22 +191,26 @@ class C20(C.ProgramDiff):
                     fn = self.make_func(yp, r, rows, log, counter)
                     if r['style'] == 'inferred':
                         yp.register_function(r['name'], fn)
-                    elif r['style'] == 'explicit':
+                    elif r['style'] in ('explicit', 'explicit-varargs'):
                         yp.register_function(r['name'], fn, arity=r['arity'])
                     else:
                         yp.register_function(r['name'], fn, arity=-1)
             before = set(map(id, impl.bound_variables()))
             boom = None
+            expected_boom = BOOMS[raising[0].get('raise_class', 0) % len(BOOMS)] if raising else Boom
             try:
                 rb = self.run_mixed(b[1], q, st, ref, it.steps, setup_mixed)
-            except Boom as e:
+            except tuple(BOOMS) as e:
+                if not hasattr(e, 'partial'):
+                    raise
                 boom = e
                 rb = ('boom', 'limit', e.partial)
             if rb[0] == 'exc':
                 return FAIL('mixed:exception:' + rb[1], self.detail(case, q, ref, None, rb[2]))
             if boom is not None:
                 classes.add('python-predicate-raised')
-                if type(boom) is not Boom or boom.args[:1] != ('boom',):
+                allowed = {BOOMS[r.get('raise_class', 0) % len(BOOMS)] for r in raising}
+                if type(boom) not in allowed or boom.args[:1] != ('boom',):
                     return FAIL('mixed:exception-altered', self.detail(case, q, ref, None, repr(boom)))
                 if rb[2] != ref[:len(rb[2])]:
                     return FAIL('mixed:answers-before-exception-differ', self.detail(case, q, ref, rb[2]))
@@ -257,10 +276,10 @@ class C20(C.ProgramDiff):
                 for _ in unify_arrays(list(args), vals):
                     counter['n'] += 1
                     if raise_at and counter['n'] == raise_at:
-                        raise Boom('boom', counter['n'])
+                        raise BOOMS[r.get('raise_class', 0) % len(BOOMS)]('boom', counter['n'])
                     yield yields[i % len(yields)]
                     i += 1
-        if r['style'] == 'variadic':
+        if r['style'] in ('variadic', 'explicit-varargs'):
             def f(*args):
                 return solutions(args)
             return f
@@ -293,11 +312,13 @@ class C20(C.ProgramDiff):
             finally:
                 g.close()
             return ('ok', status, out)
-        except Boom as e:
-            e.partial = out
-            raise
         except impl.ImplBudget:
             return ('exc', 'impl-does-not-terminate', 'step budget')
+        except tuple(BOOMS) as e:
+            if e.args[:1] == ('boom',):
+                e.partial = out
+                raise
+            return ('exc', impl.exc_signature(e), '%s: %s' % (type(e).__name__, str(e)[:300]))
         except RecursionError as e:
             return ('exc', 'RecursionError', str(e)[:200])
         except Exception as e:     # noqa
